@@ -80,21 +80,45 @@ CONTRACTS = {
     "FlowGraph.__hoist": dict(
         requires=[("topological", "topo(self.graph, self.sorted)")],
         modifies=["self.sorted[]"],
+        # list.index(LoopNode(rank)) is assumed to find the node: the loop nodes are in the list at entry (the caller's
+        # obligation) and the list stays a rearrangement of the entry list (proved below); tracking where each loop
+        # node currently sits (a second ghost map) made the proof unstable in both solvers and is not done
         assume_index_found=True,
-        ghost_entry="g_n = len(self.sorted)\n",
+        # g_orig: the list at entry; g_src[p]: the entry position of the node now at position p (mirrors every del /
+        # insert of the real list). sorted[p] == g_orig[g_src[p]] with g_src injective into [0, n) is a rearrangement
+        # of the entry list (pigeonhole: an injection of [0, n) into itself is a bijection - meta-lemma)
+        ghost_entry="g_n = len(self.sorted)\ng_orig = self.sorted.copy()\ng_src = [q for q in range(len(self.sorted))]\n",
+        ghost_after={"del self.sorted[i]": "g_x = g_src[i]\ndel g_src[i]\n",
+                     "self.sorted.insert(loop, node)": "g_src.insert(loop, g_x)\n"},
+        # native evaluation cannot interleave the ghost mirror: the witness map is recomputed from the two lists
+        ghost_exit_native=("g_src = []\n_used = set()\n"
+                           "for _x in self.sorted:\n"
+                           "    _c = [q for q in range(len(g_orig)) if q not in _used and g_orig[q] == _x]\n"
+                           "    g_src.append(_c[0] if _c else -1)\n"
+                           "    _used.add(g_src[-1])\n"),
         ensures_env="exit",
         ensures=[("topological", "topo(self.graph, self.sorted)"),
-                 ("same_list", "same_ref(self.sorted, old(self.sorted)) and len(self.sorted) == old(len(self.sorted))")],
+                 ("same_list", "same_ref(self.sorted, old(self.sorted)) and len(self.sorted) == old(len(self.sorted))"),
+                 ("rearrangement_of_the_entry_list",
+                  "len(g_src) == g_n and all(0 <= g_src[p] and g_src[p] < g_n and self.sorted[p] == g_orig[g_src[p]] for p in range(g_n)) "
+                  "and all(g_src[p] != g_src[q] for q in range(g_n) for p in range(q))"),
+                 ("entry_list", "g_orig == old(self.sorted)")],
         loops={
-            0: dict(idx="ko", modifies=["self.sorted[]"],
+            0: dict(idx="ko", modifies=["self.sorted[]", "g_src[]"],
                     inv=[("topo", "topo(self.graph, self.sorted)"),
-                         ("len", "len(self.sorted) == g_n and 0 <= end and end <= g_n")]),
-            1: dict(modifies=["self.sorted[]"],
+                         ("len", "len(self.sorted) == g_n and 0 <= end and end <= g_n"),
+                         ("perm", "len(g_src) == g_n and all(0 <= g_src[p] and g_src[p] < g_n and self.sorted[p] == g_orig[g_src[p]] for p in range(g_n))"),
+                         ("injective", "all(g_src[p] != g_src[q] for q in range(g_n) for p in range(q))"),
+                         ("own", "not same_ref(g_src, self.sorted) and not same_ref(g_orig, self.sorted) and not same_ref(g_orig, g_src)")]),
+            1: dict(modifies=["self.sorted[]", "g_src[]"],
                     inv=[("bounds", "0 <= loop and loop < i and end <= g_n and len(self.sorted) == g_n"),
                          ("loop_at", "self.sorted[loop] == LoopNode(rank)"),
                          ("between_are_descendants",
                           "all(Desc(self.graph, LoopNode(rank), self.sorted[j]) for j in range(loop + 1, i))"),
-                         ("topo", "topo(self.graph, self.sorted)")]),
+                         ("topo", "topo(self.graph, self.sorted)"),
+                         ("perm", "len(g_src) == g_n and all(0 <= g_src[p] and g_src[p] < g_n and self.sorted[p] == g_orig[g_src[p]] for p in range(g_n))"),
+                         ("injective", "all(g_src[p] != g_src[q] for q in range(g_n) for p in range(q))"),
+                         ("own", "not same_ref(g_src, self.sorted) and not same_ref(g_orig, self.sorted) and not same_ref(g_orig, g_src)")]),
         },
     ),
 }
